@@ -37,6 +37,7 @@ const (
 	absNil    // the nil value of a pointer/interface/slice/map
 	absNonNil // some non-nil value
 	absStr    // a known string
+	absStrNE  // some non-empty string (e.g. a constant text with something appended)
 )
 
 type absVal struct {
@@ -58,6 +59,8 @@ func (v absVal) String() string {
 		return "non-nil"
 	case absStr:
 		return fmt.Sprintf("%q", v.s)
+	case absStrNE:
+		return "non-empty string"
 	}
 	return "?"
 }
@@ -84,6 +87,17 @@ type absScenario struct {
 	// marks: executing an instruction for which marks returns (name, true) records "@name" = true in
 	// the path state (for must-pass-through questions: reach a return without the mark).
 	marks func(in ssa.Instruction) (string, bool)
+	// marksState is marks with the marks and tracked fields recorded so far on the path (order-sensitive questions:
+	// "X executed before any Y").
+	marksState func(in ssa.Instruction, state map[string]absVal) (string, bool)
+	// unsetMarker: a tracked field still holding aStr(unsetMarker) reads as unknown (the marker only records that no
+	// store happened; the code under evaluation must not be steered by it)
+	unsetMarker string
+	// origin (set by the evaluator): maps a parameter of a helper that is being walked into to the value the caller
+	// passed, transitively — atom recognisers use it to see through helpers (nil outside an evaluation: identity)
+	origin func(v ssa.Value) ssa.Value
+	// noInline: calls of these functions are atomic events for the scenario (never walked into)
+	noInline func(callee *ssa.Function) bool
 	// onStore may refine the value recorded for a tracked field (e.g. "a stored parameter type is non-nil").
 	onStore func(field string, v absVal) absVal
 	// calls lets the caller interpret calls (own predicate helpers): return ok=false
@@ -97,6 +111,8 @@ type absPath struct {
 	cells map[*ssa.Alloc]absVal // local variables that live in memory (captured or address-taken)
 	// refine: what a branch already decided about an otherwise unknown value (x != nil taken ⇒ x is non-nil)
 	refine map[ssa.Value]absVal
+	// calls: the results of calls that were interpreted by walking into the callee (own private helpers)
+	calls map[*ssa.Call][]absVal
 }
 
 func (p *absPath) clone() *absPath {
@@ -116,6 +132,12 @@ func (p *absPath) clone() *absPath {
 	for k, v := range p.state {
 		q.state[k] = v
 	}
+	if len(p.calls) > 0 {
+		q.calls = make(map[*ssa.Call][]absVal, len(p.calls))
+		for k, v := range p.calls {
+			q.calls[k] = v
+		}
+	}
 	return q
 }
 
@@ -132,6 +154,9 @@ func (p *absPath) key() string {
 	for k, v := range p.refine {
 		ks = append(ks, "~"+k.Name()+"="+v.String())
 	}
+	for k, vs := range p.calls {
+		ks = append(ks, fmt.Sprintf("!%s=%v", k.Name(), vs))
+	}
 	sort.Strings(ks)
 	return strings.Join(ks, ",")
 }
@@ -143,6 +168,36 @@ type absEval struct {
 	seen map[string]bool
 	// steps bounds the search
 	steps int
+	// stack of functions being walked (root first): no recursive inlining
+	stack []*ssa.Function
+	// incomplete: an eligible helper could not be walked within the bounds; tracked fields were forgotten
+	incomplete bool
+	budget     *int
+	relevant   map[*ssa.Function]bool
+	origins    map[*ssa.Parameter]ssa.Value
+}
+
+func (e *absEval) originOf(v ssa.Value) ssa.Value {
+	for i := 0; i < 8; i++ {
+		prm, ok := v.(*ssa.Parameter)
+		if !ok {
+			return v
+		}
+		o, ok := e.origins[prm]
+		if !ok {
+			return v
+		}
+		v = o
+	}
+	return v
+}
+
+// scOrigin resolves v through the scenario's origin map when an evaluation is running.
+func scOrigin(sc *absScenario, v ssa.Value) ssa.Value {
+	if sc != nil && sc.origin != nil {
+		return sc.origin(v)
+	}
+	return v
 }
 
 func constVal(k *ssa.Const) absVal {
@@ -211,6 +266,9 @@ func (e *absEval) eval(v ssa.Value, path *absPath, depth int) absVal {
 				name := fieldName(fa)
 				if _, tracked := e.sc.tracked[name]; tracked && (e.sc.fieldOK == nil || e.sc.fieldOK(fa)) {
 					if cur, ok := path.state[name]; ok {
+						if e.sc.unsetMarker != "" && cur.k == absStr && cur.s == e.sc.unsetMarker {
+							return aUnknown
+						}
 						return cur
 					}
 				}
@@ -239,6 +297,9 @@ func (e *absEval) eval(v ssa.Value, path *absPath, depth int) absVal {
 	case *ssa.Alloc, *ssa.MakeMap, *ssa.MakeSlice, *ssa.MakeChan, *ssa.MakeClosure, *ssa.FieldAddr, *ssa.IndexAddr:
 		return aNonNil
 	case *ssa.Call:
+		if rs, ok := path.calls[x]; ok && len(rs) > 0 {
+			return rs[0]
+		}
 		if b, ok := x.Call.Value.(*ssa.Builtin); ok && b.Name() == "len" && len(x.Call.Args) == 1 {
 			a := e.eval(x.Call.Args[0], path, depth+1)
 			if a.k == absNil {
@@ -264,6 +325,9 @@ func (e *absEval) eval(v ssa.Value, path *absPath, depth int) absVal {
 		return e.evalCall(x, 0, path, depth)
 	case *ssa.Extract:
 		if c, ok := x.Tuple.(*ssa.Call); ok {
+			if rs, ok := path.calls[c]; ok && x.Index < len(rs) {
+				return rs[x.Index]
+			}
 			return e.evalCall(c, x.Index, path, depth)
 		}
 		return aUnknown
@@ -312,7 +376,7 @@ func (e *absEval) evalCall(x *ssa.Call, idx int, path *absPath, depth int) absVa
 	}
 	outer := e.sc
 	sub := &absScenario{
-		tracked: outer.tracked, fieldOK: outer.fieldOK, onStore: outer.onStore, calls: outer.calls,
+		tracked: outer.tracked, fieldOK: outer.fieldOK, onStore: outer.onStore, calls: outer.calls, unsetMarker: outer.unsetMarker, origin: outer.origin,
 		assume: func(v ssa.Value, ev func(ssa.Value) absVal) (absVal, bool) {
 			switch y := v.(type) {
 			case *ssa.Parameter:
@@ -410,6 +474,21 @@ func absBinOp(op token.Token, a, b absVal) absVal {
 			return aBool(a.s == b.s)
 		case token.NEQ:
 			return aBool(a.s != b.s)
+		case token.ADD:
+			return aStr(a.s + b.s)
+		}
+	}
+	// concatenation with a known non-empty part is non-empty; a non-empty string differs from ""
+	nonEmpty := func(v absVal) bool { return v.k == absStrNE || (v.k == absStr && v.s != "") }
+	if op == token.ADD && (nonEmpty(a) || nonEmpty(b)) {
+		return absVal{k: absStrNE}
+	}
+	if (a.k == absStrNE && b.k == absStr && b.s == "") || (b.k == absStrNE && a.k == absStr && a.s == "") {
+		switch op {
+		case token.EQL:
+			return aBool(false)
+		case token.NEQ:
+			return aBool(true)
 		}
 	}
 	return aUnknown
@@ -434,74 +513,279 @@ func absReachN(fn *ssa.Function, sc *absScenario, goal func(ret *ssa.Return, eva
 	if fn == nil || len(fn.Blocks) == 0 {
 		return nil
 	}
-	e := &absEval{fn: fn, sc: sc, seen: map[string]bool{}, nest: nest}
+	budget := 0
+	e := &absEval{fn: fn, sc: sc, seen: map[string]bool{}, nest: nest, stack: []*ssa.Function{fn}, budget: &budget, relevant: map[*ssa.Function]bool{}, origins: map[*ssa.Parameter]ssa.Value{}}
+	sc.origin = e.originOf
 	start := &absPath{phi: map[*ssa.Phi]absVal{}, state: map[string]absVal{}, cells: map[*ssa.Alloc]absVal{}}
 	for k, v := range sc.tracked {
 		start.state[k] = v
 	}
 	var found *ssa.Return
-	var walk func(b, prev *ssa.BasicBlock, path *absPath)
-	walk = func(b, prev *ssa.BasicBlock, path *absPath) {
-		if found != nil {
-			return
+	e.explore(start, func(ret *ssa.Return, path *absPath) bool {
+		if goal(ret, func(v ssa.Value) absVal { return e.eval(v, path, 0) }, path.state) {
+			found = ret
+			return true
 		}
-		e.steps++
-		if e.steps > 200000 {
-			return
-		}
-		// the instructions of this block are about to be executed (again): what an earlier
-		// iteration learned about their values no longer applies
-		if len(path.refine) > 0 {
-			for _, in := range b.Instrs {
-				if v, ok := in.(ssa.Value); ok {
-					delete(path.refine, v)
+		return false
+	})
+	if found == nil && e.incomplete {
+		// the search was cut off: nothing can be claimed unreachable — report the first return as reachable
+		for _, blk := range fn.Blocks {
+			for _, in := range blk.Instrs {
+				if ret, ok := in.(*ssa.Return); ok {
+					return ret
 				}
 			}
 		}
-		// φ-values for this entry edge
-		if prev != nil {
-			pi := -1
-			for i, pb := range b.Preds {
-				if pb == prev {
-					pi = i
-				}
-			}
-			if pi >= 0 {
-				// evaluate all φ of the block simultaneously on the incoming path
-				vals := map[*ssa.Phi]absVal{}
-				for _, in := range b.Instrs {
-					ph, ok := in.(*ssa.Phi)
-					if !ok {
-						break
-					}
-					vals[ph] = e.eval(ph.Edges[pi], path, 0)
-				}
-				for ph, v := range vals {
-					path.phi[ph] = v
-				}
-			}
-		}
-		// the visited key carries every known φ-value: two arrivals are merged only when they agree on all of them
-		var pk []string
-		for ph, v := range path.phi {
-			if v.k != absUnknown {
-				pk = append(pk, ph.Name()+"="+v.String())
-			}
-		}
-		sort.Strings(pk)
-		prevIdx := -1
-		if prev != nil {
-			prevIdx = prev.Index
-		}
-		key := fmt.Sprintf("%d<%d|%s|%s", b.Index, prevIdx, path.key(), strings.Join(pk, ","))
-		if e.seen[key] {
-			return
-		}
-		e.seen[key] = true
+	}
+	return found
+}
+
+type absOutcome struct {
+	state   map[string]absVal
+	results []absVal
+}
+
+func cloneState(m map[string]absVal) map[string]absVal {
+	q := make(map[string]absVal, len(m))
+	for k, v := range m {
+		q[k] = v
+	}
+	return q
+}
+
+// helperRelevant: walking into the callee can change what the scenario observes — it stores to a tracked field,
+// executes an instruction the scenario marks, or calls something that does (bounded depth).
+func (e *absEval) helperRelevant(fn *ssa.Function, depth int) bool {
+	if v, ok := e.relevant[fn]; ok {
+		return v
+	}
+	e.relevant[fn] = false
+	rel := false
+	// a small helper is always walked: its results are then as precise as if its body stood at the call
+	ninstr := 0
+	for _, b := range fn.Blocks {
+		ninstr += len(b.Instrs)
+	}
+	if ninstr <= 80 {
+		rel = true
+	}
+	for _, b := range fn.Blocks {
 		for _, in := range b.Instrs {
+			if rel {
+				break
+			}
+			if e.sc.marks != nil {
+				if _, ok := e.sc.marks(in); ok {
+					rel = true
+				}
+			}
+			if e.sc.marksState != nil {
+				if _, ok := e.sc.marksState(in, map[string]absVal{}); ok {
+					rel = true
+				}
+			}
+			switch x := in.(type) {
+			case *ssa.Store:
+				if fa, ok := x.Addr.(*ssa.FieldAddr); ok {
+					if _, tracked := e.sc.tracked[fieldName(fa)]; tracked {
+						rel = true
+					}
+				}
+			case *ssa.Call:
+				if depth < 2 {
+					if c := x.Call.StaticCallee(); c != nil && e.inlinable(c) && e.helperRelevant(c, depth+1) {
+						rel = true
+					}
+				}
+			}
+		}
+	}
+	e.relevant[fn] = rel
+	return rel
+}
+
+// inlinable: an own, unexported, non-recursive function of the package under evaluation with a body.
+func (e *absEval) inlinable(callee *ssa.Function) bool {
+	if callee == nil || len(callee.Blocks) == 0 || callee.Pkg == nil || callee.Pkg != e.stack[0].Pkg {
+		return false
+	}
+	if callee.Object() == nil || callee.Object().Exported() {
+		return false
+	}
+	if len(e.stack) > 3 {
+		return false
+	}
+	for _, f := range e.stack {
+		if f == callee {
+			return false
+		}
+	}
+	return true
+}
+
+// inline walks into a relevant private helper: every way the helper can return yields one outcome (the marks and
+// tracked fields after it, and its abstract results).  ok=false: the call is not interpreted this way.
+func (e *absEval) inline(x *ssa.Call, path *absPath) ([]absOutcome, bool) {
+	if x.Call.IsInvoke() {
+		return nil, false
+	}
+	callee := x.Call.StaticCallee()
+	if !e.inlinable(callee) || (e.sc.noInline != nil && e.sc.noInline(callee)) || !e.helperRelevant(callee, 0) {
+		return nil, false
+	}
+	ev := func(y ssa.Value) absVal { return e.eval(y, path, 1) }
+	if e.sc.calls != nil {
+		if _, ok := e.sc.calls(x, ev); ok {
+			return nil, false
+		}
+	}
+	if e.sc.assume != nil {
+		if _, ok := e.sc.assume(x, ev); ok {
+			return nil, false
+		}
+	}
+	args := make([]absVal, len(x.Call.Args))
+	for i, a := range x.Call.Args {
+		args[i] = e.eval(a, path, 1)
+	}
+	outer := e.sc
+	sub := &absScenario{
+		tracked: outer.tracked, fieldOK: outer.fieldOK, onStore: outer.onStore, calls: outer.calls, marks: outer.marks, marksState: outer.marksState, unsetMarker: outer.unsetMarker, noInline: outer.noInline,
+		assume: func(v ssa.Value, evf func(ssa.Value) absVal) (absVal, bool) {
+			if prm, ok := v.(*ssa.Parameter); ok {
+				for i, q := range callee.Params {
+					if q == prm && i < len(args) {
+						if args[i].k == absUnknown {
+							break
+						}
+						return args[i], true
+					}
+				}
+			}
+			if outer.assume != nil {
+				return outer.assume(v, evf)
+			}
+			return aUnknown, false
+		},
+	}
+	for i, q := range callee.Params {
+		if i < len(x.Call.Args) {
+			e.origins[q] = x.Call.Args[i]
+		}
+	}
+	sub.origin = e.originOf
+	se := &absEval{fn: callee, sc: sub, seen: map[string]bool{}, nest: e.nest, stack: append(append([]*ssa.Function{}, e.stack...), callee), budget: e.budget, relevant: map[*ssa.Function]bool{}, origins: e.origins}
+	start := &absPath{phi: map[*ssa.Phi]absVal{}, state: cloneState(path.state), cells: map[*ssa.Alloc]absVal{}}
+	var outs []absOutcome
+	seen := map[string]bool{}
+	se.explore(start, func(ret *ssa.Return, cp *absPath) bool {
+		o := absOutcome{state: cloneState(cp.state)}
+		for _, rv := range ret.Results {
+			o.results = append(o.results, se.eval(rv, cp, 0))
+		}
+		k := (&absPath{state: o.state}).key() + fmt.Sprint(o.results)
+		if !seen[k] {
+			seen[k] = true
+			outs = append(outs, o)
+		}
+		return len(outs) > 64
+	})
+	if se.incomplete || *e.budget > 200000 || len(outs) > 64 {
+		// could not be walked completely: forget what the helper may have changed
+		e.incomplete = true
+		st := cloneState(path.state)
+		for k := range outer.tracked {
+			st[k] = aUnknown
+		}
+		res := make([]absVal, callee.Signature.Results().Len())
+		return []absOutcome{{state: st, results: res}}, true
+	}
+	return outs, true
+}
+
+// explore enumerates the paths of e.fn from its entry; onReturn is called at every Return reached and stops the
+// search by returning true.
+func (e *absEval) explore(start *absPath, onReturn func(ret *ssa.Return, path *absPath) bool) {
+	sc := e.sc
+	stop := false
+	var walk func(b *ssa.BasicBlock, from int, prev *ssa.BasicBlock, path *absPath)
+	walk = func(b *ssa.BasicBlock, from int, prev *ssa.BasicBlock, path *absPath) {
+		if stop {
+			return
+		}
+		*e.budget++
+		if *e.budget > 200000 {
+			e.incomplete = true
+			return
+		}
+		if from == 0 {
+			// the instructions of this block are about to be executed (again): what an earlier
+			// iteration learned about their values no longer applies
+			if len(path.refine) > 0 || len(path.calls) > 0 {
+				for _, in := range b.Instrs {
+					if v, ok := in.(ssa.Value); ok {
+						delete(path.refine, v)
+					}
+					if c, ok := in.(*ssa.Call); ok {
+						delete(path.calls, c)
+					}
+				}
+			}
+			// φ-values for this entry edge
+			if prev != nil {
+				pi := -1
+				for i, pb := range b.Preds {
+					if pb == prev {
+						pi = i
+					}
+				}
+				if pi >= 0 {
+					// evaluate all φ of the block simultaneously on the incoming path
+					vals := map[*ssa.Phi]absVal{}
+					for _, in := range b.Instrs {
+						ph, ok := in.(*ssa.Phi)
+						if !ok {
+							break
+						}
+						vals[ph] = e.eval(ph.Edges[pi], path, 0)
+					}
+					for ph, v := range vals {
+						path.phi[ph] = v
+					}
+				}
+			}
+			// the visited key carries every known φ-value: two arrivals are merged only when they agree on all of them
+			var pk []string
+			for ph, v := range path.phi {
+				if v.k != absUnknown {
+					pk = append(pk, ph.Name()+"="+v.String())
+				}
+			}
+			sort.Strings(pk)
+			prevIdx := -1
+			if prev != nil {
+				prevIdx = prev.Index
+			}
+			key := fmt.Sprintf("%d<%d|%s|%s", b.Index, prevIdx, path.key(), strings.Join(pk, ","))
+			if e.seen[key] {
+				return
+			}
+			e.seen[key] = true
+		}
+		for i := from; i < len(b.Instrs); i++ {
+			in := b.Instrs[i]
+			marked := false
 			if sc.marks != nil {
 				if name, ok := sc.marks(in); ok {
 					path.state["@"+name] = aBool(true)
+					marked = true
+				}
+			}
+			if sc.marksState != nil {
+				if name, ok := sc.marksState(in, path.state); ok {
+					path.state["@"+name] = aBool(true)
+					marked = true
 				}
 			}
 			switch x := in.(type) {
@@ -539,8 +823,8 @@ func absReachN(fn *ssa.Function, sc *absScenario, goal func(ret *ssa.Return, eva
 					}
 				}
 			case *ssa.Return:
-				if goal(x, func(v ssa.Value) absVal { return e.eval(v, path, 0) }, path.state) {
-					found = x
+				if onReturn(x, path) {
+					stop = true
 				}
 				return
 			case *ssa.Panic:
@@ -549,29 +833,46 @@ func absReachN(fn *ssa.Function, sc *absScenario, goal func(ret *ssa.Return, eva
 				if isExitCall(x) {
 					return
 				}
+				if marked {
+					break // a marked call is an atomic event of the scenario
+				}
+				if outs, ok := e.inline(x, path); ok {
+					for _, o := range outs {
+						p2 := path.clone()
+						p2.state = cloneState(o.state)
+						if p2.calls == nil {
+							p2.calls = map[*ssa.Call][]absVal{}
+						}
+						p2.calls[x] = o.results
+						walk(b, i+1, prev, p2)
+						if stop {
+							return
+						}
+					}
+					return
+				}
 			case *ssa.If:
 				c := e.eval(x.Cond, path, 0)
 				switch {
 				case c.k == absBool && c.b:
-					walk(b.Succs[0], b, path)
+					walk(b.Succs[0], 0, b, path)
 				case c.k == absBool && !c.b:
-					walk(b.Succs[1], b, path)
+					walk(b.Succs[1], 0, b, path)
 				default:
 					pt, pf := path.clone(), path
 					refineBranch(x.Cond, pt, true)
 					refineBranch(x.Cond, pf, false)
-					walk(b.Succs[0], b, pt)
-					walk(b.Succs[1], b, pf)
+					walk(b.Succs[0], 0, b, pt)
+					walk(b.Succs[1], 0, b, pf)
 				}
 				return
 			case *ssa.Jump:
-				walk(b.Succs[0], b, path)
+				walk(b.Succs[0], 0, b, path)
 				return
 			}
 		}
 	}
-	walk(fn.Blocks[0], nil, start)
-	return found
+	walk(e.fn.Blocks[0], 0, nil, start)
 }
 
 // refineBranch records what taking the given side of an undecided condition implies:
@@ -658,11 +959,12 @@ type parseAtoms struct {
 // rl = number of results, e0/e1 = isError(result 0/1) (nil pointer = unknown),
 // tpLen = number of type parameters (-1 unknown), allowTP (nil = unknown).
 func parseScenario(up bool, rl int64, e0, e1 *bool, tpLen int64, allowTP *bool, seen *parseAtoms) *absScenario {
+	var sc *absScenario
 	isResults := func(v ssa.Value) bool {
-		c, ok := v.(*ssa.Call)
+		c, ok := scOrigin(sc, v).(*ssa.Call)
 		return ok && ssaCalleeObj(c) != nil && isFunc(ssaCalleeObj(c), "go/types", "Signature", "Results")
 	}
-	return &absScenario{
+	sc = &absScenario{
 		tracked: map[string]absVal{"UpdateTarget": aBool(false), "TypeParams": aBool(false)},
 		assume: func(v ssa.Value, ev func(ssa.Value) absVal) (absVal, bool) {
 			switch x := v.(type) {
@@ -683,7 +985,7 @@ func parseScenario(up bool, rl int64, e0, e1 *bool, tpLen int64, allowTP *bool, 
 					return aInt(tpLen), true
 				}
 				if o.Name() == "isError" && objPkgPath(o) == modPath+"/method" && len(x.Call.Args) == 1 {
-					if at, ok := x.Call.Args[0].(*ssa.Call); ok && ssaCalleeObj(at) != nil && isFunc(ssaCalleeObj(at), "go/types", "Tuple", "At") && len(at.Call.Args) == 2 && isResults(at.Call.Args[0]) {
+					if at, ok := scOrigin(sc, x.Call.Args[0]).(*ssa.Call); ok && ssaCalleeObj(at) != nil && isFunc(ssaCalleeObj(at), "go/types", "Tuple", "At") && len(at.Call.Args) == 2 && isResults(at.Call.Args[0]) {
 						if a := ev(at.Call.Args[1]); a.k == absInt {
 							seen.nErr++
 							var e *bool
@@ -728,6 +1030,7 @@ func parseScenario(up bool, rl int64, e0, e1 *bool, tpLen int64, allowTP *bool, 
 			return aUnknown, false
 		},
 	}
+	return sc
 }
 
 func boolPtr(b bool) *bool { return &b }
